@@ -271,6 +271,49 @@ def run(tier):
                 vd.observe("enumerated attribute DW_AT_%s = %d (%s) is not shown as %s" % (at, v, form, "/".join(names)), {"observed": g})
             else:
                 nontriv += 1
+    # the addresses a DIE covers: low_pc with high_pc as an address (DWARF 2, 3) or as an offset (DWARF 4, three
+    # constant forms), DW_AT_ranges with disjoint, adjacent, overlapping and unordered ranges -- as a set
+    def cover(pairs):
+        out = []
+        for lo, hi in sorted(p for p in pairs if p[1] > p[0]):
+            if out and lo <= out[-1][1]:
+                out[-1][1] = max(out[-1][1], hi)
+            else:
+                out.append([lo, hi])
+        return [(lo, hi - lo) for lo, hi in out]
+    acases = [(4, [("low", "addr", 0x1000), ("high", "data8", 0x20)], [(0x1000, 0x1020)]),
+              (4, [("low", "addr", 0x1000), ("high", "udata", 0x20)], [(0x1000, 0x1020)]),
+              (4, [("low", "addr", 2**63), ("high", "data1", 0xff)], [(2**63, 2**63 + 0xff)]),
+              (3, [("low", "addr", 0x1000), ("high", "addr", 0x1020)], [(0x1000, 0x1020)]),
+              (2, [("low", "addr", 0x4000), ("high", "addr", 0x4001)], [(0x4000, 0x4001)]),
+              (4, [("ranges", "rangelist", [(0x100, 0x110), (0x200, 0x220)])], [(0x100, 0x110), (0x200, 0x220)]),
+              (4, [("ranges", "rangelist", [(0x100, 0x110), (0x110, 0x120)])], [(0x100, 0x110), (0x110, 0x120)]),
+              (3, [("ranges", "rangelist", [(0x300, 0x340), (0x320, 0x330), (0x100, 0x101)])], [(0x300, 0x340), (0x320, 0x330), (0x100, 0x101)]),
+              (4, [("ranges", "rangelist", [(0x500, 0x510), (0x508, 0x520)])], [(0x500, 0x510), (0x508, 0x520)])]
+    ATC = {"low": 0x11, "high": 0x12, "ranges": 0x55}
+    aunits, aexp = [], {}
+    for k, (ver, ats, pairs) in enumerate(acases):
+        did = 7000 + k
+        aexp[did] = cover(pairs)
+        aunits.append({"kind": "cu", "version": ver, "table": k, "root": {"id": 7100 + k, "tag": 0x11, "attrs": [{"name": 0x11, "form": "addr", "value": 0}],
+                       "children": [{"id": did, "tag": 0x2e, "children": [], "attrs": [{"name": ATC[n], "form": f, "value": v} for n, f, v in ats]}]}})
+    oa, offsa, _ = dwarfgen.build({"units": aunits}, wd, "c07addr")
+    ba = D.Built(oa, offsa)
+    ra = D.run_queries(drv, [(oa, "entry ?TAG_subprogram (|D| [D, [D address], [D address low], [D address high]])", False)], wd, "c07addr")[0]
+    if not ra or ra.get("status") != "ok":
+        vd.observe("address query failed", {"observed": ra})
+    else:
+        for x in ra["results"]:
+            g = x[-1]["v"]
+            did = D.ident(ba, g[0])
+            vd.cov["evaluations"] += 1
+            got = [(int(a), int(l)) for a, l in (g[1]["v"][0]["v"] if g[1]["v"] and g[1]["v"][0]["t"] == "aset" else [])]
+            want = aexp.get(did)
+            lo = [int(v["v"]) for v in g[2]["v"]]; hi = [int(v["v"]) for v in g[3]["v"]]
+            if got != want or lo != [want[0][0]] or hi != [want[-1][0] + want[-1][1]]:
+                vd.observe("addresses of a DIE (case %d)" % (did - 7000), {"expected": want, "observed": got, "low": lo, "high": hi, "case": str(acases[did - 7000])})
+            else:
+                nontriv += 1
     vd.cov["distinct_nontrivial"] = nontriv
     vd.cov["traces_validated_against_impl"] = nontriv
     # location attributes: one element per address range with the stored operations and operands -- the
